@@ -169,3 +169,18 @@ void jcsa_use_staj_iterators(const std::string& s)
     auto view4 = staj_object_iterator<std::string, std::string>(cursor4, ec);
     for (const auto& kv : view4) { (void)kv; }
 }
+
+// strings whose character type differs from the cursor's (decode_traits converts through a buffer)
+void jcsa_use_wide_string_decode(const std::string& s)
+{
+    auto w = jsoncons::decode_json<std::wstring>(s);
+    auto v = jsoncons::decode_json<std::vector<std::wstring>>(s);
+    (void)w; (void)v;
+}
+
+// R17.11 positive example (must be reported inside /verif/drivers on every run, never inside the library): a string handed on
+// through a NUL-terminated pointer, which ends it at the first U+0000
+namespace jcsa_reflect {
+inline std::wstring cstr_truncation_witness(const std::wstring& buf) { return std::wstring(buf.c_str()); }
+}
+void jcsa_use_cstr_witness() { (void)jcsa_reflect::cstr_truncation_witness(L"a"); }
